@@ -162,6 +162,7 @@ func (s *faultSrc) noteErr(e error) {
 type consumerLog struct {
 	msgs   []handler.Message
 	closed int
+	pauses int
 }
 
 // consumeSlowly is consume for a consumer that may take a long (virtual) time
@@ -170,6 +171,7 @@ func consumeSlowly(name string, ch chan handler.Message, log *consumerLog, pause
 	mcrt.Go(name, func() {
 		for {
 			if mcrt.Choose(2, "consumer-pause") == 1 {
+				log.pauses++
 				mcrt.Sleep(pause)
 			}
 			m, ok := mcrt.Recv2(ch)
